@@ -135,6 +135,11 @@ class World:
             except Exception as e:
                 raise DeploymentBroken(f"driver {vv['dev']} (inheritance depth {dep.get('inherit', {}).get(vv['dev'], 1)}) lacks declared "
                                        f"property {vv['name']} of group {dep['grps'][vv['grp'] - 1]['name']}: {type(e).__name__}: {e}")
+        for dname, drv in self.drivers.items():
+            extra = [n for n in vars(drv).get("_vectors", {}) if not any(q["dev"] == dname and q["name"] == n for q in dep["vecs"])]
+            if extra:
+                raise DeploymentBroken(f"driver {dname} (inheritance depth {dep.get('inherit', {}).get(dname, 1)}) has properties its class does "
+                                       f"not declare (a base class's group shadows the derived class's own): {extra}")
         self.client = RecClient()
         self.router.register_client(self.client)
         for d in dep["devorder"]:
@@ -187,6 +192,11 @@ class World:
             for level in range(chain - 1):
                 part = {k: ns.pop(k) for k in gkeys[level::chain] if k in ns} if gkeys else {}
                 part["name"] = dname
+                # the base also declares a group under an attribute name that the derived class re-declares: the derived
+                # class's own declaration must win
+                keep = [k for k in gkeys if k in ns]
+                if keep:
+                    part[keep[0]] = properties.Group("DECOY", vectors={"decoy": properties.TextVector("DECOY_%s" % dname, elements={"d": properties.Text("d", default="decoy")})})
                 base = type("Base%d_%s" % (level, dname), (base,), part)
             cls = type("Gen_" + dname, (base,), ns)
             if chain > 1 and base is not Driver:
@@ -446,7 +456,7 @@ def random_dep(r) -> dict:
 
 def domain(kind: str, r, wrong: bool = False) -> str:
     if kind == "text":
-        return r.choice(["x", "y", "z"])
+        return r.choice(["x", "y", "z", "\u00e9\u00b0 \u00fc"])        # also text outside ASCII (Latin-1)
     if kind == "number":
         return r.choice(["n1", "n2", "n3", "n4"])
     if kind == "switch":
@@ -597,7 +607,10 @@ def run(prop: str, tier: str) -> int:
         dep = random_dep(r)
         if prop == "C09" and not any(x["kind"] == "switch" for x in dep["vecs"]):
             continue
-        traces.append(run_trace(dep, lambda w, dep=dep: random_ops(r, dep, r.randint(8, 30), w)))
+        try:
+            traces.append(run_trace(dep, lambda w, dep=dep: random_ops(r, dep, r.randint(8, 30), w)))
+        except DeploymentBroken as e:
+            v.violation(str(e), {"kind": "deployment", "what": str(e)})
     for ti, t in enumerate(traces):
         for i, e in enumerate(t["ev"]):
             v.evaluations += 1
@@ -644,6 +657,10 @@ def run(prop: str, tier: str) -> int:
 
 def replay(prop: str, path: str) -> int:
     rp = json.load(open(path))["replay"]
+    if rp.get("kind") == "deployment":
+        print(rp["what"])
+        print(f"VIOLATION property={prop} replay={path}")
+        return 1
     if rp.get("kind") == "robust-session":
         print(json.dumps(rp["event"], indent=1)[:1500])
         print(f"VIOLATION property={prop} replay={path}")
